@@ -436,8 +436,19 @@ func (s *Sim) Boot(id uint64, dir string, inc int, boot []uint64) (*SimNode, err
 	return n, nil
 }
 
+// alignStart: every incarnation starts in its own 10 µs class of the millisecond. The library's
+// election tickers sleep whole milliseconds and draw their next timeout from ONE process-wide
+// math/rand source: started like this, no two tickers (zombies included) ever wake at the same
+// instant, so the order of the draws - and with it every timeout - is the same in every run.
+func alignStart(id uint64, inc int) {
+	class := int64((id*12+uint64(inc%12))%100)*10_000 + 500
+	d := (class - time.Now().UnixNano()%1_000_000 + 1_000_000) % 1_000_000
+	time.Sleep(time.Duration(d))
+}
+
 func (s *Sim) Start(id uint64) error {
 	n := s.Nodes[id]
+	alignStart(id, n.Inc)
 	if err := n.R.Start(); err != nil {
 		return err
 	}
@@ -560,6 +571,7 @@ func (s *Sim) Restart(id uint64, img string, inc int) error {
 	if err != nil {
 		return err
 	}
+	alignStart(id, inc)
 	if err := n.R.Start(); err != nil {
 		return err
 	}
